@@ -305,6 +305,42 @@ CLAIMED['C15'] = dict(
          'by replace_one: excluded by Spec.plainRequest. Non-write errors abort an unordered bulk '
          '(stated as hypothesis hw).')
 
+CLAIMED['C19'] = dict(
+    technique='Lean 4 theorems about a model of the reader/writer lock REGENERATED from '
+              'mongomock/thread.py and of the lock discipline REGENERATED from mongomock/store.py: '
+              'mutual-exclusion invariant and deadlock freedom for any number of threads by '
+              'induction, kernel-checked closed state sets for 2 and 3 threads; tied to the code '
+              'by the translators and by deterministic-scheduler runs of the real classes',
+    text='Two translators trace mongomock/thread.py (RWLock: which counters and mutexes each of '
+         'the four context-manager phases touches, in which order, what happens on an exception) '
+         'and mongomock/store.py (which lock section each CollectionStore method runs in, what it '
+         'iterates and mutates inside and outside) and regenerate Generated/RWLockProtocol.lean '
+         'and Generated/LockDiscipline.lean on every run. Lean 4 theorems: the regenerated '
+         'protocol and discipline equal the reference ones (by decide: a change in the code breaks '
+         'exactly this obligation); for the reference protocol and ANY number of threads every '
+         'reachable state of the protocol machine satisfies the mutex invariant (at most one '
+         'writer inside, a writer inside excludes all readers, counters equal the number of '
+         'readers inside), no release ever fails, the lock is released on the raise path and some '
+         'thread can always move (no deadlock); two readers inside together is reachable; for the '
+         'regenerated protocol itself closed state sets for 2 and 3 threads are re-enumerated by '
+         'the model driver and re-checked by the kernel; compiled store programs whose phase '
+         'tags are conformant refine the protocol machine; while a thread is inside a reader '
+         'section no step of any thread changes the document map (snapshot iteration); with '
+         'these, every schedule of every conformant program over the store methods ends with all '
+         'locks released, no internal error and no deadlock, PROVIDED no thread mutates '
+         '_ttl_indexes concurrently (thread_safe_partial, thread_safe_partial_any_n). The full '
+         'statement is refuted in Lean by a schedule (ttl_race_witness) that is a known finding '
+         'replayed on the real code. Tie: random scenarios (2-4 threads, 1-3 store calls each, '
+         'reads, writes, failing reads, iteration with a throwing consumer, TTL expiry, index '
+         'creation) run with real threads on the real CollectionStore/RWLock under a '
+         'deterministic scheduler that switches at lock operations and yielded documents, and on '
+         'the model; outcomes (per-thread results, final maps, errors) are compared and the '
+         'property is judged directly on the real run.',
+    note='Granularity is that of the property (lock operations and iteration steps): preemption '
+         'inside one primitive action is not exhibited. Kernel certificates cover N = 2, 3; N >= 4 '
+         'rests on the any-N hand proof for the reference protocol plus protocol_is_reference. '
+         'Known finding: ttl-index-race (_ttl_indexes iterated and mutated outside any lock).')
+
 PENDING = {
     'C02': 'model (MongoModel/Update.lean) and correspondence exist; theorems not yet proved',
     'C03': 'in progress: pipeline model depends on the expression model (C04)',
@@ -331,7 +367,7 @@ def main():
     ids = [p['id'] for p in props]
     m = {
         'version': 1,
-        'setup_cmd': 'cd lean && lake build MongoModel Spec Proofs Props mmdriver',
+        'setup_cmd': 'cd lean && lake build MongoModel Spec Proofs Props Generated mmdriver',
         'hooks': {
             'guard': 'MONGOMOCK_VERIF',
             'enable': 'no hooks are needed: the checks import /repo\'s working tree in-process and '
